@@ -59,6 +59,12 @@ func init() {
 	add("c08-iface-array-has-inclusive", "C08.iface", D,
 		"return intKey >= 0 && intKey < len(v.Compound.Children)",
 		"return intKey >= 0 && intKey <= len(v.Compound.Children)", "ArrayDecodeValue.Has")
+	add("c08-iface-array-has-float-key-refused", "C08.iface", T,
+		"\tcase float64:\n\t\tswitch {\n\t\tcase math.MinInt <= key && key <= math.MaxInt:",
+		"\tcase float32:\n\t\tswitch {\n\t\tcase math.MinInt <= key && key <= math.MaxInt:", "Has:numbers")
+	add("c08-iface-array-has-int-only-again", "C08.iface", D,
+		"\t\t\tintKey, ok := gojqx.HasIndex(key)\n",
+		"\t\t\tintKey, ok := func(k any) (int, bool) { i, ok := k.(int); return i, ok }(key)\n", "ArrayDecodeValue.Has")
 	add("c08-iface-struct-length-other-collection", "C08.iface", D,
 		"func (v StructDecodeValue) JQValueLength() any   { return len(v.Compound.Children) }",
 		"func (v StructDecodeValue) JQValueLength() any   { return len(v.Compound.ByName) }", "StructDecodeValue.Keys")
